@@ -286,6 +286,24 @@ def d16():
         gc.collect()
 
 
+def d16zip():
+    gc.disable()
+    try:
+        out, esc, log = request(b"/testdata.zip/pygopherd/ziponly\r\n")
+        leaked = []
+        for fd in os.listdir("/proc/self/fd"):
+            try:
+                t = os.readlink(f"/proc/self/fd/{fd}")
+            except OSError:
+                continue
+            if "testdata.zip" in t:
+                leaked.append(os.path.basename(t))
+        return bool(leaked), f"still open after the request: {sorted(set(leaked))}"
+    finally:
+        gc.enable()
+        gc.collect()
+
+
 def d17():
     out, esc, log = request(b"/nonexistent|/MBOX-MESSAGE/1\r\n")
     return (not out) or bool(had_exception(log)), f"reply={out!r} log={had_exception(log)}"
@@ -320,10 +338,10 @@ def d18():
     return with_tree(run)
 
 
-ALL = {k: v for k, v in list(globals().items()) if k.startswith("d") and k[1:].isdigit()}
+ALL = {k: v for k, v in list(globals().items()) if k.startswith("d") and k[1:2].isdigit() and callable(v)}
 
 if __name__ == "__main__":
-    names = [a.lower() for a in sys.argv[1:]] or sorted(ALL, key=lambda s: int(s[1:]))
+    names = [a.lower() for a in sys.argv[1:]] or sorted(ALL, key=lambda s: (int(''.join(c for c in s[1:] if c.isdigit())), s))
     for n in names:
         try:
             bad, what = ALL[n]()
